@@ -734,11 +734,16 @@ def setFlag (excl bit : Nat) : V → R V
     if fl &&& excl ≠ 0 then .err
     else .ok (.obj "NXActionCTNAT" [h, pad, .num (fl ||| bit), rp, a, b, c, d, e, f])
   | _ => .panic
-/-- SetRangeXxx(x): field idx := x; rangePresent |= bit; a.Length += add -/
-def setRange (idx bit : Nat) (add : UInt16) (x : V) : V → R V
+/-- unpaddedLen(): the fixed part plus the widths of the range fields whose presence bit is set -/
+def unpaddedLen (rp : Nat) : UInt16 :=
+  16 + (if rp &&& 1 ≠ 0 then 4 else 0) + (if rp &&& 2 ≠ 0 then 4 else 0) + (if rp &&& 4 ≠ 0 then 16 else 0)
+     + (if rp &&& 8 ≠ 0 then 16 else 0) + (if rp &&& 16 ≠ 0 then 2 else 0) + (if rp &&& 32 ≠ 0 then 2 else 0)
+/-- SetRangeXxx(x): field idx := x; rangePresent |= bit; a.Length = a.unpaddedLen()  (`_add`, the field's width, is what the
+    setter used to add to the length before the repair; kept so that callers need not change) -/
+def setRange (idx bit : Nat) (_add : UInt16) (x : V) : V → R V
   | .obj "NXActionCTNAT" [h, pad, fl, .num rp, a, b, c, d, e, f] => do
-    let l ← NXActionHeader.length h
-    let h' ← NXActionHeader.setLength (l + add) h
+    let _ ← NXActionHeader.length h
+    let h' ← NXActionHeader.setLength (unpaddedLen (rp ||| bit)) h
     let fs := ([a, b, c, d, e, f] : List V).set idx x
     pure (.obj "NXActionCTNAT" ([h', pad, fl, .num (rp ||| bit)] ++ fs))
   | _ => .panic
